@@ -67,6 +67,9 @@ func init() {
 	Calls["sentinel-register"] = func(o Op) *nom.AccountBlock {
 		return call(o, types.SentinelContract, znn, new(big.Int).Set(constants.SentinelZnnRegisterAmount), definition.ABISentinel.PackMethodPanic(definition.RegisterSentinelMethodName))
 	}
+	// "refund": a call with an amount that passes send-time validation and fails on receive, so that the contract returns
+	// the amount through a descendant send (sentinel Register without the QSR deposit; needs >= 5000 ZNN: users 0,1,5..9)
+	Calls["refund"] = Calls["sentinel-register"]
 	Calls["sentinel-revoke"] = func(o Op) *nom.AccountBlock {
 		return call(o, types.SentinelContract, znn, Big(0), definition.ABISentinel.PackMethodPanic(definition.RevokeSentinelMethodName))
 	}
